@@ -8,9 +8,11 @@ actors (mrp processes), at the granularity of martian/core/pipestance.go:
           f.Close()                                                                     --   (atomic
       } else if os.IsExist(err) {                                                       --    test-and-set
           return &PipestanceLockedError{…}                                              --    by the OS)
-      } else { log }                                                                    -- acquireErr p: ANY other error
-      util.RegisterSignalHandler(self)                                                  -- register p      (EPERM, ENOSPC, EROFS, EIO …):
-                                                                                        --                 logged, and Lock() goes on
+      } else { log; return err }                                                        -- acquireFail p: ANY other error (EPERM, ENOSPC,
+      util.RegisterSignalHandler(self)                                                  -- register p      EROFS, EIO, ENOENT …) is returned.
+                                                                                        --   Before the repair: `else { log }` and Lock()
+                                                                                        --   went on = acquireErr p.  Which of the two the
+                                                                                        --   code does: fact `Gen.c15LockCreateErrorIgnored`
       self.metadata.WriteTime(Lock)
       return nil
   }
@@ -52,7 +54,8 @@ inductive Act
   | signal (p : Nat)
   | kill (p : Nat)
   | rmLock
-  /-- `Lock()` when the create of `_lock` fails with an error other than "exists": the
+  /-- The code BEFORE the repair 89932cb (`Gen.c15LockCreateErrorIgnored = true`):
+  `Lock()` when the create of `_lock` fails with an error other than "exists": the
   error is logged, the signal handler is registered and `Lock()` returns nil although
   no file was created.  This describes an error that PERSISTS (EPERM on an immutable
   directory, EROFS — what the harness injects): `metadata.WriteTime(Lock)` that follows
@@ -63,6 +66,9 @@ inductive Act
   read only mode" — and `Unlock()`; that sequel is an `unlock`-like step of its own, not
   part of this action.) -/
   | acquireErr (p : Nat)
+  /-- `Lock()` when the create of `_lock` fails with an error other than "exists" and the
+  error is RETURNED (the code since the repair): nothing is registered, nothing is written -/
+  | acquireFail (p : Nat)
   /-- `Runtime.InvokePipeline` by a second mrp that saw the directory still empty: `Lock()`,
   and on refusal the clean-up of `InvokePipeline` -/
   | start (p : Nat)
@@ -97,6 +103,7 @@ def step (regFirst startRm : Bool) (s : St) : Act → St × Bool
         (if startRm then { s with lockFile := false } else s, false)
       else ({ s with lockFile := true, holders := p :: s.holders }, true)
   | .startFail _ => (if startRm then { s with lockFile := false } else s, false)
+  | .acquireFail _ => (s, false)
 
 /-- what the code structure allows: `register` only by an owner that has not yet
 registered, `unlock` only by an owner, `acquire` only by a process that does not
@@ -112,14 +119,22 @@ def enabled (s : St) : Act → Bool
   | .acquireErr p => !s.holders.contains p
   | .start p => !s.holders.contains p
   | .startFail p => !s.holders.contains p
+  | .acquireFail p => !s.holders.contains p
 
-/-- the two remaining assumptions: the operator deletes `_lock` only when no
-process owns the pipestance; the create of `_lock` either succeeds or fails with
-"exists" (no `acquireErr`: see `lts_create_error_breaks_exclusion`) -/
+/-- the remaining assumption: the operator deletes `_lock` only when no process owns
+the pipestance.  `acquireErr` (a create error that is IGNORED) is excluded too; since
+the repair 89932cb that is not an assumption about the environment any more but the
+regenerated fact `Gen.c15LockCreateErrorIgnored = false`: a create error is returned
+(`acquireFail`, allowed here; `Props.C15.lts_create_error_changes_nothing`); negative
+witness for the old code: `lts_create_error_breaks_exclusion` -/
 def disciplined (s : St) : Act → Bool
   | .rmLock => s.holders.isEmpty
   | .acquireErr _ => false
   | _ => true
+
+/-- what `Lock()` does when the exclusive create fails with an error other than "exists",
+as a function of the regenerated fact `Gen.c15LockCreateErrorIgnored` -/
+def createErr (ignored : Bool) (p : Nat) : Act := if ignored then .acquireErr p else .acquireFail p
 
 def run (regFirst startRm : Bool) (ok : St → Act → Bool) : St → List Act → Option St
   | s, [] => some s
